@@ -146,6 +146,20 @@ def run_closed(P, rep, rule="R-CLOSED"):
             rep.ok(rule, site, P.where(fn), "assert_empty dominated by the block reader; dominates every Ok return")
 
 
+def _some_tag_parse_propagated(P, fn):
+    for bi, t in P.calls(fn):
+        f = t.get("f")
+        if not f or f["id"].rsplit("::", 1)[1] != "parse" or "Tag" not in f["name"] or "BlockElement" in f["name"]:
+            continue
+        d = t["d"][0]
+        for b2, t2 in P.calls(fn):
+            if t2.get("f") and t2["f"]["id"].endswith("Try::branch") and t2["args"]:
+                a0 = op_local(t2["args"][0])
+                if a0 and a0[0] == d:
+                    return True
+    return False
+
+
 def run_comment_raw(P, rep, rule="R-BLOCKBODY"):
     """comment: only tags of the body are parsed (nesting), nothing else is interpreted;
     raw: the body is taken with escape_liquid(false) and stored unmodified."""
@@ -168,6 +182,10 @@ def run_comment_raw(P, rep, rule="R-BLOCKBODY"):
                  "the comment body is interpreted through %s: text / output tags inside a comment must be skipped, only nested tags are parsed" % sorted(set(bad)))
     elif tagparse < 1:
         rep.viol(rule, "CommentBlock::parse", P.where(fn), "nested tags are not parsed (comment nesting / raw inside comment would break)")
+    elif not _some_tag_parse_propagated(P, fn):
+        rep.viol(rule, "CommentBlock::parse nested-comment", P.where(fn),
+                 "no Tag::parse result is propagated with `?`: the error of a nested `{% comment %}` (wrong arguments, mis-nested end tag) is swallowed and the "
+                 "outer comment then closes on the inner one's end tag — malformed nesting is accepted")
     else:
         rep.ok(rule, "CommentBlock::parse", P.where(fn), "parses nested tags only (%d Tag::parse sites); other elements are skipped" % tagparse)
     rk = "<liquid_lib::stdlib::blocks::raw_block::RawBlock as %s>::parse" % PB
@@ -489,3 +507,42 @@ def run_source_verbatim(P, rep, rule="R-SRCVERBATIM"):
             rep.viol(rule, site, P.where(fn, t["line"]), "the source text passes through `%s` before it is parsed: what is parsed is not what was given" % bad[0])
         else:
             rep.ok(rule, site, P.where(fn, t["line"]), "the `text` parameter is handed on as is")
+
+
+
+def run_tag_args_kept(P, rep, rule="R-KEEPVALS"):
+    """IncludeTag::parse (stdlib, jekyll) and RenderTag::parse: every `name: value` pair that parsed is pushed onto the
+    argument list before the next token is read — no pair is dropped at parse time (an argument always shadows)."""
+    from r_pair import return_blocks
+    keys = ["<liquid_lib::stdlib::tags::include_tag::IncludeTag as liquid_core::parser::tag::ParseTag>::parse",
+            "<liquid_lib::jekyll::include_tag::IncludeTag as liquid_core::parser::tag::ParseTag>::parse",
+            "<liquid_lib::stdlib::tags::render_tag::RenderTag as liquid_core::parser::tag::ParseTag>::parse"]
+    for key in keys:
+        fns = P.by_key(key)
+        if len(fns) != 1:
+            rep.anchor_missing(rule, key)
+            continue
+        fn = fns[0]
+        label = key.split(" as ")[0].lstrip("<").rsplit("::", 2)[-2] + "::" + key.split(" as ")[0].rsplit("::", 1)[-1]
+        import r_term
+        loops_ = r_term.natural_loops(P, fn)
+        n = 0
+        for h, body in loops_:
+            vals = [(b, fn.blocks[b]["t"]) for b in sorted(body) if fn.blocks[b]["t"]["k"] == "call" and fn.blocks[b]["t"].get("f")
+                    and fn.blocks[b]["t"]["f"]["id"].rsplit("::", 1)[1] == "expect_value"]
+            if not vals:
+                continue
+            pushes = {b for b in body if fn.blocks[b]["t"]["k"] == "call" and fn.blocks[b]["t"].get("f")
+                      and (fn.blocks[b]["t"]["f"]["id"].rsplit("::", 1)[1] in ("push", "insert", "extend", "extend_one"))}
+            resid = {b for b, t in P.calls(fn) if t.get("f") and t["f"]["id"].endswith("FromResidual::from_residual")}
+            for bi, t in vals:
+                n += 1
+                site = "%s argument value#%d" % (label, n - 1)
+                r = P.reach(fn, [t["t"]], stop=pushes | resid)
+                if h in r or (r & set(return_blocks(fn))):
+                    rep.viol(rule, site, P.where(fn, t["line"]), "a parsed `name: value` argument can be dropped: a path returns to the argument loop / "
+                             "leaves the parser without pushing the pair")
+                else:
+                    rep.ok(rule, site, P.where(fn, t["line"]), "every success path pushes the pair before reading on")
+        if n == 0:
+            rep.ok(rule, label + " arguments", P.where(fn), "no argument loop with values here (not decided by this rule)")
